@@ -1,5 +1,6 @@
 import Mkts.Model.Path
 import Mkts.Model.Timeframe
+import Mkts.Extracted.Skeletons
 /-!
 # Requests against a directory tree: `catalog.AddTimeBucket`, `RemoveTimeBucket`, `load`,
 `frontend.Create/Write/Destroy`, `executor.WriteCSM` (lookup, auto-create, new-year file) — the part
@@ -119,6 +120,40 @@ def Cat.removeSub (c : Cat) (np : List Str) : Cat :=
   | none => c
   | some p => { c with nodes := c.nodes.filter (fun e => !isPrefixOf np e.1), dmap := c.dmap.filter (· != p) }
 
+/-! ## which key validation the CURRENT source performs (read off the regenerated skeletons) -/
+
+def hasSub : List String → List String → Bool
+  | [], pat => pat.isEmpty
+  | a :: l, pat => pat.isPrefixOf (a :: l) || hasSub l pat
+
+/-- `if err = tbk.Validate(); err != nil { return err }` -/
+def validateCall : List String := ["call:tbk.Validate", "if:err != nil{", "return", "}"]
+
+/-- atoms with an effect on the directory tree or the catalog -/
+def fsAtoms : List String :=
+  ["call:filepath.Join", "call:os.Mkdir", "call:writeCategoryNameFile", "call:newTimeBucketInfoFromTemplate",
+   "call:NewDirectory", "call:d.addSubdir", "call:removeDirFiles", "call:tree[i].removeSubDir", "call:d.removeSubDir"]
+
+/-- the function calls `tbk.Validate()`, returns on its error, and does so before any effect -/
+def validatesFirst (sk : List String) : Bool :=
+  hasSub sk validateCall && (sk.takeWhile (· != "call:tbk.Validate")).all (fun a => !fsAtoms.contains a)
+
+/-- `TimeBucketKey.Validate` as repaired: every item is tested for "", ".", "..", separator, NUL -/
+def expValidate : List String :=
+  ["call:mk.GetItems", "range:mk.GetItems(){", "call:strings.ContainsRune", "call:strings.ContainsRune",
+   "if:item == \"\" || item == \".\" || item == \"..\" || strings.ContainsRune(item, filepath.Separator) || strings.ContainsRune(item, 0){",
+   "call:mk.GetItemKey", "call:fmt.Errorf", "return", "}", "}", "return"]
+
+/-- does the CURRENT source refuse keys with unsafe items in `AddTimeBucket` / `RemoveTimeBucket`?
+    (`false` = the code before the repair of C16-F10: keys go to the file system unchecked) -/
+def addValidates : Bool :=
+  validatesFirst Mkts.Extracted.Skel.catalog_Directory_AddTimeBucket &&
+  Mkts.Extracted.Skel.utils_io_TimeBucketKey_Validate == expValidate
+
+def removeValidates : Bool :=
+  validatesFirst Mkts.Extracted.Skel.catalog_Directory_RemoveTimeBucket &&
+  Mkts.Extracted.Skel.utils_io_TimeBucketKey_Validate == expValidate
+
 /-! ## requests -/
 
 inductive Res where
@@ -182,6 +217,7 @@ def Cat.addSubdir (c : Cat) (name : Str) (childPath : Path) (sub : List (List St
 /-- `Directory.AddTimeBucket(tbk, tbinfo)` with `tbinfo.Path = Join(GetPathToYearFiles(root), <year>.bin)` -/
 def addTimeBucket (root : Path) (fs : FS) (cat : Cat) (k : Key) (year : Nat) : FS × Cat × Res :=
   let items := k.items
+  if addValidates && !allSafe items then (fs, cat, .other) else
   match addLoop k.cats fs root items 0 with
   | (fs1, .error e) => (fs1, cat, e)
   | (fs1, .ok dirname) =>
@@ -273,6 +309,7 @@ def treeOf (cat : Cat) : List Str → List Str → Option (List (List Str × Pat
 def destroy (_root : Path) (fs : FS) (cat : Cat) (key : Str) : FS × Cat × Res :=
   let parts := splitOn colon key
   let k := newTimeBucketKey (parts.headD []) ((parts.drop 1).headD [])
+  if removeValidates && !allSafe k.items then (fs, cat, .nokey) else
   match treeOf cat [] k.items with
   | none => (fs, cat, .nokey)
   | some tree =>
